@@ -44,8 +44,15 @@ def candidates():
             if not f.endswith(".go") or f.endswith("_test.go") or f.startswith("verif_") or f.endswith("_string.go"):
                 continue
             path = os.path.join(pkg, f)
+            incomment = False
             for ln, line in enumerate(open(os.path.join("/repo", path)), 1):
                 s = line.rstrip("\n")
+                if "/*" in s:
+                    incomment = True
+                if incomment:
+                    if "*/" in s:
+                        incomment = False
+                    continue
                 if s.strip().startswith("//") or "errors.New" in s or "fmt.Errorf" in s or "panic(" in s:
                     continue
                 for i, (pat, rep) in enumerate(SWAPS):
